@@ -136,8 +136,9 @@ class KGAdverb:
         self.arity = arity
 
 
-class KGChar(str):
-    pass
+# one character class for the reader and the backends (characters taken out of a string are
+# backend characters; with a second class here they were not recognised as atoms)
+from .backends.numpy_backend import KGChar
 
 
 class KGCond(list):
